@@ -218,3 +218,69 @@ def abstract_polys(w: dict) -> list[list[list[int]]]:
             ring = [[g["xg"][a][b], g["yg"][a][b]] for a, b in ((j, i), (j, i + 1), (j + 1, i + 1), (j + 1, i))]
             out.append([] if any(W.NANQ in p for p in ring) else ring)
     return out
+
+
+# ------------------------------------------------------------------ clip geometries
+def clip_geometries(w: dict, rng: random.Random, *, count: int = 8) -> list[dict]:
+    """A catalogue of abstract clip geometries (sequences of parts in quanta) built from the abstract cells:
+    each is {"label", "parts": [{"t": "pt"|"ln"|"pg", "pts": [[x, y]...]}]}.  Which cells they hit is for TLC to say."""
+    polys = [p for p in abstract_polys(w) if p]
+    if not polys:
+        return []
+    allv = [p for poly in polys for p in poly]
+    minx = min(p[0] for p in allv); maxx = max(p[0] for p in allv)
+    miny = min(p[1] for p in allv); maxy = max(p[1] for p in allv)
+
+    def centre(poly):
+        a, b, c = poly[0], poly[1], poly[2]
+        n = len(poly)
+        sx = sum(p[0] for p in poly); sy = sum(p[1] for p in poly)
+        if sx % n == 0 and sy % n == 0 and n == 4:
+            return [sx // n, sy // n]
+        return [(2 * a[0] + b[0] + c[0]) // 4, (2 * a[1] + b[1] + c[1]) // 4]
+
+    def small_box(c, r=2):
+        return [[c[0] - r, c[1] - r], [c[0] + r, c[1] - r], [c[0] + r, c[1] + r], [c[0] - r, c[1] + r]]
+
+    out = []
+    a = rng.choice(polys); b = rng.choice(polys)
+    out.append({"label": "inside-cell", "parts": [{"t": "pg", "pts": small_box(centre(a))}]})
+    out.append({"label": "cell-ring", "parts": [{"t": "pg", "pts": [list(p) for p in b]}]})       # touches its neighbours
+    out.append({"label": "vertex-point", "parts": [{"t": "pt", "pts": [list(rng.choice(a))]}]})
+    out.append({"label": "line", "parts": [{"t": "ln", "pts": [centre(a), centre(b)] if centre(a) != centre(b)
+                                            else [centre(a), [centre(a)[0] + 30, centre(a)[1] + 6]]}]})
+    k = rng.randrange(len(b))
+    out.append({"label": "edge-line", "parts": [{"t": "ln", "pts": [list(b[k]), list(b[(k + 1) % len(b)])]}]})
+    out.append({"label": "multi", "parts": [{"t": "pg", "pts": small_box(centre(a))},
+                                            {"t": "pg", "pts": small_box(centre(polys[0]), 3)}]})
+    out.append({"label": "cover-all", "parts": [{"t": "pg", "pts": [[minx - 12, miny - 12], [maxx + 12, miny - 12],
+                                                                    [maxx + 12, maxy + 12], [minx - 12, maxy + 12]]}]})
+    out.append({"label": "border-hug", "parts": [{"t": "pg", "pts": [[minx - 48, miny - 12], [minx, miny - 12],
+                                                                     [minx, maxy + 12], [minx - 48, maxy + 12]]}]})
+    out.append({"label": "outside", "parts": [{"t": "pg", "pts": small_box([maxx + 200, maxy + 200], 6)}]})
+    out.append({"label": "point-multi", "parts": [{"t": "pt", "pts": [centre(a)]}, {"t": "pt", "pts": [list(b[0])]}]})
+    return out
+
+
+def to_shapely(geom: dict):
+    import shapely
+    from .worlds import SCALE
+    parts = []
+    for p in geom["parts"]:
+        pts = [(x * SCALE, y * SCALE) for x, y in p["pts"]]
+        if p["t"] == "pt":
+            parts.append(shapely.Point(pts[0]))
+        elif p["t"] == "ln":
+            parts.append(shapely.LineString(pts))
+        else:
+            parts.append(shapely.Polygon(pts))
+    if len(parts) == 1:
+        return parts[0]
+    kinds = {p["t"] for p in geom["parts"]}
+    if kinds == {"pg"}:
+        return shapely.MultiPolygon(parts)
+    if kinds == {"pt"}:
+        return shapely.MultiPoint(parts)
+    if kinds == {"ln"}:
+        return shapely.MultiLineString(parts)
+    return shapely.GeometryCollection(parts)
